@@ -93,6 +93,27 @@ CHECKS = {
 NOT_YET = "check not built yet in this round (see DESIGN.md section 4 for the plan)"
 
 
+PRELUDE = " Every harness process first makes one of three call sequences (none / tweakable family first / plain family first, by shard) so that lazily built global state cannot hide behind one process history; the schedule or object passed as const to a data call is compared with its image before the call."
+PRIOR = " Handles are painted (poisoned under MemorySanitizer) before every init and schedule objects hold a pattern before their first key-setting call."
+EXTRA = {
+    "C01": PRELUDE, "C02": PRELUDE,
+    "C03": PRELUDE + PRIOR + " The Mantis closure world also has a const-use operation (ecb_crypt_tweaked with its own tweak); parallel round trips are repeated in place; the closure and the round trips also run on the 32-bit-word and byte-order-neutral builds.",
+    "C04": PRELUDE + PRIOR + " CTR kinds include data calls between tweak changes.",
+    "C05": PRELUDE + PRIOR, "C06": PRELUDE + PRIOR,
+    "C07": PRELUDE + PRIOR + " Data families other than the first run on buffers whose offsets from a 32-byte boundary walk through 0..15; also on the 32-bit-word build.",
+    "C09": " The second request of a stream (first request ending block-aligned or not inside a batch) is placed between red zones as well; a faulting call is attributed to its case by the forked runner; every reported placement is re-executed alone under memcheck before it is printed.",
+    "C10": PRELUDE + " Wrap-around length candidates (2^32 - v, 2^k + multiples of the block) are included; prior objects carry a non-zero tweak.",
+    "C11": " The C06 worlds (re-keying and tweak changes outside the stream regime) and the allocation-failure histories of C16 are part of the histories; heap blocks the library did not request cleared are filled with the paint pattern of the run and poisoned under MemorySanitizer; every reported case is re-executed alone before it is printed.",
+    "C13": " The caller's object is painted with the pattern of the case before each init, and the builds include one with no SIMD back end compiled in (real and modelled CPU).",
+    "C14": PRELUDE + PRIOR + " Invalid classes include combinations (NULL pointer together with an out-of-range length) and, for Mantis parallel objects, both directions for the keyed object and for the invalid call.",
+    "C15": PRELUDE + PRIOR + " The alphabet includes a zero-length request and an init whose first allocation request is refused (the object is dead afterwards).",
+    "C16": PRELUDE, "C17": PRELUDE + PRIOR + " Re-keying with the shortest key after the longest is part of the alphabet.",
+    "C18": " Operations on private objects use in-between key lengths as well as the standard ones.",
+    "C19": " Every case and every history runs on a fresh object; CTR sequences include a mid-stream setKey.",
+    "C20": " Option order rotates with the case index and every second case finds its output paths already existing with more bytes than the tool will write.",
+}
+
+
 def main():
     props = [json.loads(l) for l in open(os.path.join(VERIF, "properties.jsonl"))]
     try:
@@ -121,6 +142,8 @@ def main():
         if not c:
             man["not_applicable"].append({"property_id": pid, "reason": NOT_YET})
             continue
+        c = dict(c)
+        c["text"] = c["text"] + EXTRA.get(pid, "")
         e = {
             "property_id": pid,
             "quick_cmd": "./vpcheck %s --tier quick" % pid,
